@@ -251,6 +251,29 @@ var c11Templates = []c11Tmpl{
 	{key: "phase reverse", args: "phase --unaligned --reverse --cut-end -i orf.fa -o phased.fa", in: "orf", noThr: true},
 	{key: "phasent", args: "phasent --unaligned -i orf.fa -o phased.fa --aa-output phased.aa", in: "orf", noThr: true},
 	{key: "draw biojs", args: "draw biojs -o out.html {in}", in: "nt"},
+	{key: "build weightboot", args: "build weightboot -n 3 {in}", in: "nt", seeded: true},
+	{key: "draw png", args: "draw png -o out.png {in}", in: "nt"},
+	{key: "replace posfile", args: "replace -f replace.txt {in}", in: "nt"},
+	{key: "sort unaligned", args: "sort --unaligned {infa}", in: "nt"},
+	{key: "subseq step", args: "subseq -s 1 -l 4 --step 2 -o win.fa {in}", in: "nt"},
+	{key: "subseq reverse", args: "subseq -s 2 -l 3 -r {in}", in: "nt"},
+	{key: "subsites reverse", args: "subsites -r 1 4 {in}", in: "nt"},
+	{key: "subsites ref", args: "subsites --ref-seq Seq0001 0 2 3 {in}", in: "nt"},
+	{key: "subsites sitefile", args: "subsites --sitefile sites.txt {in}", in: "nt"},
+	{key: "rename revert", args: "rename -m map.rev -r {in}", in: "nt"},
+	{key: "rename unaligned", args: "rename -m map.in --unaligned {infa}", in: "nt"},
+	{key: "dedup name", args: "dedup --name -l dedup.log {in}", in: "nt"},
+	{key: "dedup unaligned", args: "dedup --unaligned {infa}", in: "nt"},
+	{key: "diff counts no-gaps", args: "diff --counts --no-gaps {in}", in: "nt"},
+	{key: "translate mitov", args: "translate --genetic-code mitov --phase 1 {in}", in: "nt"},
+	{key: "translate unaligned", args: "translate --genetic-code mitoi --phase 2 --unaligned {infa}", in: "nt"},
+	{key: "stats mutations list aa", args: "stats mutations list --aa --ref-sequence Seq0000 {in}", in: "nt"},
+	{key: "stats mutations profile", args: "stats mutations --unique --count-profile prof.txt {in}", in: "nt"},
+	{key: "mask unique at-most ref", args: "mask --unique --at-most 2 --ref-seq Seq0000 {in}", in: "nt"},
+	{key: "mask ref no-gaps no-ref", args: "mask -s 1 -l 4 --ref-seq Seq0001 --no-gaps --no-ref {in}", in: "nt"},
+	{key: "concat log", args: "concat -l concat.log other.fa {infa}", in: "nt"},
+	{key: "clean sites ignore-case", args: "clean sites --char a -c 0.3 --ignore-case --reverse {in}", in: "nt"},
+	{key: "reformat ignore-identical", args: "reformat phylip --ignore-identical 1 {in}", in: "nt"},
 	// commands that draw random numbers: --seed is given
 	{key: "random", args: "random -n 5 -l 30", in: "none", seeded: true},
 	{key: "random aa", args: "random -n 4 -l 20 -a -p", in: "none", seeded: true},
@@ -350,6 +373,9 @@ func (c11) Gen(rs uint64, tier string, race bool) interface{} {
 	}
 	c.Files["names.txt"] = nn[1] + "\n" + nn[2] + "\n"
 	c.Files["map.in"] = nn[0] + "\tRenamedA\n" + nn[2] + "\tRenamedB\n"
+	c.Files["map.rev"] = "RenamedA\t" + nn[0] + "\nRenamedB\t" + nn[2] + "\n"
+	c.Files["sites.txt"] = "0\n2\n3\n"
+	c.Files["replace.txt"] = "# name site char\n" + nn[0] + "\t1\tN\n" + nn[1] + "\t0\t-\n"
 	l := len(ns[0])
 	c.Files["part.txt"] = fmt.Sprintf("M1,p1=1-%d\nM2,p2=%d-%d\n", l/2, l/2+1, l)
 	{
